@@ -83,7 +83,7 @@ def neighbours(u, f, answer_events):
         for v in vals[:2]:
             for nv in (v + "\x00", v + "a", v + "ÿ", v[:-1] if v else "\x00", "\x00" + v, v + "\x00" + v, v.upper() if v.upper() != v else v + "A"):
                 ev(tags=[[name, nv]])
-            for nn in (chr(ord(name) + 1), chr(max(1, ord(name) - 1)), name + name):
+            for nn in (chr(min(0x10FFFF, ord(name) + 1)) if not 0xD7FF <= ord(name) < 0xDFFF else "\ue000", chr(max(1, ord(name) - 1)) if not 0xD800 < ord(name) <= 0xE000 else "\ud7ff", name + name):
                 ev(tags=[[nn, v]])
             ev(tags=[[name], ["x", v]])
             # the same look-alike values, but created outside the filter's time window
@@ -174,13 +174,25 @@ async def run_store(backend, store_seed, nbases, counters, coverage, explicit=No
                     if key is not None:
                         events.append(ref.make_event(key, kind=e["kind"], created_at=now + u.rng.choice([3600, 86400, 86400 * 400]), tags=e["tags"], content="post-dated"))
                         counters["post_dated_events"] = counters.get("post_dated_events", 0) + 1
+        edge_bases = []
+        if not explicit:
+            # the two ENDS of the tag index: a tag name that sorts below every other stored name and one that sorts above
+            # them all, each with a short value and one long enough to be keyed by its digest - scans of these conditions
+            # run off the edge of the tag index into the neighbouring index / the end sentinel
+            for name in ("\x01", "\U0010ffff"):
+                k = u.rng.choice(u.keys)
+                for val in ("b", "m" * 300, "a"):
+                    events.append(ref.make_event(k, kind=1, created_at=gen.T0 + u.rng.choice([0, 1, 256]), tags=[[name, val]], content="edge %r %d" % (name, len(val))))
+                edge_bases.append({"#" + name: u.rng.choice([["b", "m" * 300], ["m" * 300, "b"], ["a", "m" * 300, "b"]])})
+                edge_bases.append({"#" + name: ["a", "b"], "kinds": [1]})
+            counters["edge_name_cases"] = counters.get("edge_name_cases", 0) + len(edge_bases)
         await qcore.load_store(rig, conn, events)
         log = list(events)
         stored = dump.stored_events(dump.dump(rig))
         if explicit:
             bases = [explicit["filter"]]
         else:
-            bases = [u.wellformed_filter(list(stored.values()), max_conds=u.rng.choice([1, 2, 2, 3])) for _ in range(nbases)]
+            bases = edge_bases + [u.wellformed_filter(list(stored.values()), max_conds=u.rng.choice([1, 2, 2, 3])) for _ in range(nbases)]
 
         def viol(key, msg, f, extra=None):
             rp = {"backend": backend, "events": list(log), "filter": f}
